@@ -67,7 +67,7 @@ def run(tier, seed, replay):
             ks_override = None
             progs = [(s, r.choice(inputs)) for s in LOOPS]
             errs = ERRS if not quick else r.sample(ERRS, 70) + ERRS[:12]
-            progs += [(s, r.choice(inputs)) for s in errs] + [(s, jqgen.V(x)) for s in (ERRS[:40] if not quick else ERRS[:12]) for x in ([1], {"a": 1})]
+            progs += [(s, r.choice(inputs)) for s in errs] + [(s, jqgen.V(x)) for s in (ERRS[:40] if not quick else ERRS[:12]) for x in ([7, 8], {"b": 2})]
             progs += [(c["src"], c["inputs"][0]) for c in evalfam.regression_cases()]
             for _ in range(40 if quick else 400):
                 progs.append((jqgen.program(r, 3), r.choice(uni)))
